@@ -201,7 +201,7 @@ func runC03(c *Ctx) {
 		c.guardSeq("c03.holds.harness_ok", func() { c.seq03(all) })
 	}
 	// round 2: the operations of Model/MeshMore.lean and crop on non-identity clouds (c03_more.go)
-	c.moreOps(20+c.N/4, "c03.holds.harness_ok", c.emitMore03)
+	c.moreOps(40+c.N/2, "c03.holds.harness_ok", c.emitMore03)
 }
 
 func (c *Ctx) seq03(all []string) {
